@@ -137,6 +137,21 @@ func Abs(r *rand.Rand, ie *entities.InfoElement, maxVar int) []int {
 			for i := range b {
 				b[i] = 32 + b[i]%95
 			}
+			// strings are arbitrary octets on the wire: NUL bytes at the end, at the start, everywhere
+			switch r.Intn(12) {
+			case 0:
+				for i := n - 1; i >= 0 && i >= n-1-r.Intn(3); i-- {
+					b[i] = 0
+				}
+			case 1:
+				if n > 0 {
+					b[0] = 0
+				}
+			case 2:
+				for i := range b {
+					b[i] = 0
+				}
+			}
 		}
 		return b
 	case entities.Float32:
@@ -191,6 +206,17 @@ func Abs(r *rand.Rand, ie *entities.InfoElement, maxVar int) []int {
 		return b
 	}
 	return randBytes(r, w)
+}
+
+// Zero is the all-zero / empty value of ie's type.
+func Zero(ie *entities.InfoElement) []int {
+	if w := Width(ie); w > 0 && ie.DataType != entities.Boolean {
+		return make([]int, w)
+	}
+	if ie.DataType == entities.Boolean {
+		return []int{0}
+	}
+	return []int{}
 }
 
 // CustomEnt is the enterprise number of the user-registered registry used by the harness.
